@@ -55,6 +55,10 @@ class Ctx:
     def thorough(self):
         return self.tier == "thorough"
 
+    def scale(self, n):
+        """input-count multiplier: 1 in the quick tier; n x VERIF_THOROUGH_MULT (default 4) in the thorough tier"""
+        return n * int(os.environ.get("VERIF_THOROUGH_MULT", "4")) if self.thorough() else 1
+
 
 # ---------------------------------------------------------------------------------------------
 # build steps
